@@ -25,6 +25,9 @@ int main(void) {
         if (!strcmp(t[0], "name") && n == 2) {
             uint8_t *p; size_t len = hx_decode(t[1], &p); char *s = (char *)malloc(len + 1); memcpy(s, p, len); s[len] = 0;
             printf("%lu\n", (unsigned long)flatbuffers_type_hash_from_name(s)); free(s); free(p);
+        } else if (!strcmp(t[0], "idfromname") && n == 2) {
+            uint8_t *p; size_t len = hx_decode(t[1], &p); char *s = (char *)malloc(len + 1); flatbuffers_fid_t fid; memcpy(s, p, len); s[len] = 0;
+            flatbuffers_identifier_from_name(s, fid); hx_print((uint8_t *)fid, 4); printf("\n"); free(s); free(p);
         } else if (!strcmp(t[0], "idfromhash") && n == 2) {
             flatbuffers_fid_t fid; flatbuffers_identifier_from_type_hash((flatbuffers_thash_t)strtoull(t[1], 0, 10), fid);
             hx_print((uint8_t *)fid, 4); printf("\n");
